@@ -1,0 +1,154 @@
+//go:build verif
+
+// Contracts checked by /verif/govc (comment-only; compiled only with -tags verif).
+//
+// Level 1 of the gadget layer for the R1CS builder (see frontend/cs/scs/contracts_verif.go for the method):
+// an arbitrary assignment w of the wires satisfying every rank-1 constraint the builder emits. A variable is
+// a linear expression; lsum(builder, l) = sum_i l[i].Coeff * w(l[i].VID) is its denotation, denR(builder, v)
+// that of a frontend.Variable. The linear-expression arithmetic (Add / Sub / Mul / Neg by constant folding,
+// k-way merge and compression, toVariable(s), newR1C) is ASSUMED here through the helpers' contracts; what is
+// verified is that each API operation composes them and the emitted constraints into its documented relation.
+package r1cs
+
+//@ ghost w F
+//@ spec func lsum(b Builder, l []Term) F
+//@ spec func lsumC(b Builder, l []Term) F
+//@ spec func isCLE(v Variable) bool = typeIs(v, "constraint.LinearExpression")
+//@ spec func isLE(v Variable) bool = typeIs(v, "expr.LinearExpression[E]")
+// liveV: a linear expression held by a Variable lives in storage that exists now (true of every Go value;
+// stated as a precondition because the memory model does not derive it for values boxed in `any`)
+//@ spec func liveV(v Variable) bool = (isLE(v) ==> allocated(as(v, "expr.LinearExpression[E]"))) && (isCLE(v) ==> allocated(as(v, "constraint.LinearExpression")))
+//@ spec func denR(b Builder, v Variable) F = isLE(v) ? lsum(b, as(v, "expr.LinearExpression[E]")) : (isCLE(v) ? lsumC(b, as(v, "constraint.LinearExpression")) : (typeIs(v, "E") ? as(v, "E") : constOf(v)))
+
+// ---- assumed helpers
+//@ contract (*builder).toVariable
+//@   trusted "conversion of a frontend.Variable to a linear expression (constants through FromInterface)"
+//@   assigns *builder.cs
+//@   ensures lsum(builder, result) == denR(builder, iface(input)) && allocated(result)
+//@ contract (*builder).toVariables
+//@   trusted "toVariable on each argument (stated per position: the API methods pass at most six)"
+//@   assigns *builder.cs
+//@   ensures len(result.0) == len(in) && fresh(result.0)
+//@   ensures len(in) >= 1 ==> lsum(builder, result.0[0]) == denR(builder, in[0]) && allocated(result.0[0])
+//@   ensures len(in) >= 2 ==> lsum(builder, result.0[1]) == denR(builder, in[1]) && allocated(result.0[1])
+//@   ensures len(in) >= 3 ==> lsum(builder, result.0[2]) == denR(builder, in[2]) && allocated(result.0[2])
+//@   ensures len(in) >= 4 ==> lsum(builder, result.0[3]) == denR(builder, in[3]) && allocated(result.0[3])
+//@   ensures len(in) >= 5 ==> lsum(builder, result.0[4]) == denR(builder, in[4]) && allocated(result.0[4])
+//@   ensures len(in) >= 6 ==> lsum(builder, result.0[5]) == denR(builder, in[5]) && allocated(result.0[5])
+//@ contract (*builder).constantValue
+//@   trusted "a one-term expression on the ONE wire"
+//@   pure
+//@   ensures result.1 ==> result.0 == denR(builder, v)
+//@ contract (*builder).cstOne
+//@   trusted
+//@   pure
+//@   ensures lsum(builder, result) == f1 && allocated(result)
+//@ contract (*builder).cstZero
+//@   trusted
+//@   pure
+//@   ensures lsum(builder, result) == f0 && allocated(result)
+//@ contract (*builder).isCstOne
+//@   trusted
+//@   pure
+//@   ensures result == (c == f1)
+//@ contract (*builder).newInternalVariable
+//@   trusted "a fresh wire with coefficient one"
+//@   assigns *builder.cs
+//@   ensures fresh(result) && allocated(result)
+//@ contract (*builder).NewHint
+//@   trusted "hint outputs are fresh wires"
+//@   assigns *builder.cs
+//@   ensures result.1 == nil ==> len(result.0) == nbOutputs && fresh(result.0) && (forall k int :: 0 <= k && k < nbOutputs ==> isLE(result.0[k]))
+//@ contract (*builder).Add
+//@   trusted "not verified: k-way merge of sorted linear expressions"
+//@   assigns *builder.cs, *builder.mtBooleans
+//@   ensures isLE(result) && allocated(as(result, "expr.LinearExpression[E]"))
+//@   ensures len(in) == 0 ==> denR(builder, result) == fadd(denR(builder, i1), denR(builder, i2))
+//@   ensures len(in) == 1 ==> denR(builder, result) == fadd(fadd(denR(builder, i1), denR(builder, i2)), denR(builder, in[0]))
+//@ contract (*builder).Sub
+//@   trusted "not verified: goes through Add"
+//@   assigns *builder.cs, *builder.mtBooleans
+//@   ensures isLE(result) && allocated(as(result, "expr.LinearExpression[E]"))
+//@   ensures len(in) == 0 ==> denR(builder, result) == fsub(denR(builder, i1), denR(builder, i2))
+//@   ensures len(in) == 1 ==> denR(builder, result) == fsub(fsub(denR(builder, i1), denR(builder, i2)), denR(builder, in[0]))
+//@ contract (*builder).Neg
+//@   trusted "not verified: coefficient-wise negation of a copy"
+//@   assigns *builder.cs
+//@   ensures isLE(result) && allocated(as(result, "expr.LinearExpression[E]")) && denR(builder, result) == fneg(denR(builder, i))
+//@ contract (*builder).Mul
+//@   trusted "not verified: constant folding; a product of two non-constant expressions adds the constraint l*r = res on a fresh wire"
+//@   assigns *builder.cs, *builder.mtBooleans
+//@   ensures isLE(result) && allocated(as(result, "expr.LinearExpression[E]"))
+//@   ensures len(in) == 0 ==> denR(builder, result) == fmul(denR(builder, i1), denR(builder, i2))
+//@ contract (*builder).newR1C
+//@   trusted "the compiled constraint l*r = o (possibly with l and r swapped); every call site in this package hands the result straight to cs.AddR1C, so the constraint holds under w"
+//@   assigns *builder.cs
+//@   ensures fmul(denR(builder, l), denR(builder, r)) == denR(builder, o)
+//@ contract (*builder).getLinearExpression
+//@   trusted "compilation of a linear expression to constraint terms keeps its denotation"
+//@   assigns *builder.cs
+//@   ensures lsumC(builder, result) == denR(builder, _l) && allocated(result)
+//@ contract (*builder).newDebugInfo
+//@   trusted "debug information only"
+//@   pure
+//@ contract (*builder).MarkBoolean
+//@   trusted "map insertion; the precondition is the obligation at every call site"
+//@   pure
+//@   requires @deferred isBool(denR(builder, v))
+//@ contract (*builder).IsBoolean
+//@   trusted "map lookup; sound by the precondition of MarkBoolean"
+//@   pure
+//@   ensures result ==> isBool(denR(builder, v))
+
+// ---- API operations
+//@ contract (*builder).IsZero
+//@   props C05
+//@   assigns *builder.cs, *builder.mtBooleans
+//@   requires builder != nil && liveV(i1)
+//@   ensures @iszero denR(builder, result) == (denR(builder, i1) == f0 ? f1 : f0)
+
+//@ contract (*builder).Inverse
+//@   props C05
+//@   assigns *builder.cs
+//@   requires builder != nil && liveV(i1)
+//   a one-term expression on the ONE wire (id 0, value 1) denotes its coefficient
+//@   lemma @const-result isLE(result) && len(as(result, "expr.LinearExpression[E]")) == 1 && as(result, "expr.LinearExpression[E]")[0].VID == 0 ==> denR(builder, result) == as(result, "expr.LinearExpression[E]")[0].Coeff
+//@   ensures @inverse fmul(denR(builder, result), denR(builder, i1)) == f1
+
+//@ contract (*builder).AssertIsBoolean
+//@   props C05
+//   (IsBoolean / MarkBoolean sort the terms of the caller's linear expression in place: a write through i1 that
+//   leaves its denotation unchanged)
+//@   assigns *builder.cs, *builder.mtBooleans, i1
+//@   requires builder != nil && liveV(i1)
+//   v * (1 - v) == 0 forces v into {0,1}
+//@   lemma @bool-poly fmul(denR(builder, i1), fsub(f1, denR(builder, i1))) == f0 ==> isBool(denR(builder, i1))
+//@   ensures @bool isBool(denR(builder, i1))
+
+//@ contract (*builder).AssertIsEqual
+//@   props C05
+//@   assigns *builder.cs, *builder.mtBooleans
+//@   requires builder != nil && liveV(i1) && liveV(i2)
+//@   ensures @eq denR(builder, i1) == denR(builder, i2)
+
+//@ contract (*builder).And
+//@   props C05
+//@   assigns *builder.cs, *builder.mtBooleans
+//@   requires builder != nil && liveV(_a) && liveV(_b)
+//@   ensures @and isBool(denR(builder, _a)) && isBool(denR(builder, _b)) && denR(builder, result) == fmul(denR(builder, _a), denR(builder, _b))
+
+//@ contract (*builder).Xor
+//@   props C05
+//@   assigns *builder.cs, *builder.mtBooleans
+//@   requires builder != nil && liveV(_a) && liveV(_b)
+//   truth tables of a*(1-2b)+b and b*(1-2a)+a over {0,1}
+//@   lemma @xor-table isBool(denR(builder, _a)) && isBool(denR(builder, _b)) ==> fadd(fmul(denR(builder, _a), fsub(f1, fmul(denR(builder, _b), ofInt(2)))), denR(builder, _b)) == (denR(builder, _a) == denR(builder, _b) ? f0 : f1) && fadd(fmul(denR(builder, _b), fsub(f1, fmul(denR(builder, _a), ofInt(2)))), denR(builder, _a)) == (denR(builder, _a) == denR(builder, _b) ? f0 : f1)
+//@   ensures @xor isBool(denR(builder, _a)) && isBool(denR(builder, _b)) && denR(builder, result) == (denR(builder, _a) == denR(builder, _b) ? f0 : f1)
+
+//@ contract (*builder).Select
+//@   props C05
+//@   assigns *builder.cs, *builder.mtBooleans
+//@   requires builder != nil && liveV(i0) && liveV(i1) && liveV(i2)
+//@   lemma @select-table isBool(denR(builder, i0)) ==> fadd(fmul(denR(builder, i0), fsub(denR(builder, i1), denR(builder, i2))), denR(builder, i2)) == (denR(builder, i0) == f1 ? denR(builder, i1) : denR(builder, i2))
+//@   lemma @select-zero isBool(denR(builder, i0)) ==> fmul(fsub(f1, denR(builder, i0)), denR(builder, i2)) == (denR(builder, i0) == f1 ? f0 : denR(builder, i2))
+//@   ensures @select isBool(denR(builder, i0)) && denR(builder, result) == (denR(builder, i0) == f1 ? denR(builder, i1) : denR(builder, i2))
